@@ -1312,6 +1312,21 @@ class Compiler:
 
     # ---- Expressions ----
 
+    # opcode of `x op= y` for each compound assignment operator
+    _COMPOUND_OPS = {
+        "+": OpCode.ADD,
+        "-": OpCode.SUB,
+        "*": OpCode.MUL,
+        "/": OpCode.DIV,
+        "%": OpCode.MOD,
+        "&": OpCode.BAND,
+        "|": OpCode.BOR,
+        "^": OpCode.BXOR,
+        "<<": OpCode.SHL,
+        ">>": OpCode.SHR,
+        ">>>": OpCode.USHR,
+    }
+
     def _compile_expression(self, node: Node) -> None:
         """Compile an expression."""
         if isinstance(node, NumericLiteral):
@@ -1645,21 +1660,7 @@ class Compiler:
                                 idx = self._add_name(name)
                                 self._emit(OpCode.LOAD_NAME, idx)
                     self._compile_expression(node.right)
-                    op = node.operator[:-1]  # Remove '='
-                    op_map = {
-                        "+": OpCode.ADD,
-                        "-": OpCode.SUB,
-                        "*": OpCode.MUL,
-                        "/": OpCode.DIV,
-                        "%": OpCode.MOD,
-                        "&": OpCode.BAND,
-                        "|": OpCode.BOR,
-                        "^": OpCode.BXOR,
-                        "<<": OpCode.SHL,
-                        ">>": OpCode.SHR,
-                        ">>>": OpCode.USHR,
-                    }
-                    self._emit(op_map[op])
+                    self._emit(self._COMPOUND_OPS[node.operator[:-1]])
 
                 self._emit(OpCode.DUP)
                 cell_slot = self._get_cell_var(name)
@@ -1686,7 +1687,14 @@ class Compiler:
                 else:
                     idx = self._add_constant(node.left.property.name)
                     self._emit(OpCode.LOAD_CONST, idx)
-                self._compile_expression(node.right)
+                if node.operator == "=":
+                    self._compile_expression(node.right)
+                else:
+                    # Compound assignment: read the property once, combine, store
+                    self._emit(OpCode.DUP2)  # [obj, prop, obj, prop]
+                    self._emit(OpCode.GET_PROP)  # [obj, prop, old_value]
+                    self._compile_expression(node.right)
+                    self._emit(self._COMPOUND_OPS[node.operator[:-1]])
                 self._emit(OpCode.SET_PROP)
 
         elif isinstance(node, SequenceExpression):
